@@ -40,25 +40,26 @@ func resolveUDP(p *Prog) *udpRoles {
 	}
 	var structChans []string
 	var wgFields []string
-	for i := 0; i < lst.NumFields(); i++ {
-		f := lst.Field(i)
-		ts := f.Type().String()
+	// fields regrouped into an unexported inner struct keep their roles (promoted or dotted names)
+	flattenFields = true
+	for _, f := range flatStructFields(lst, "", 0) {
+		ts := f.Type.String()
 		switch {
 		case ts == "net.PacketConn":
-			r.pConn = f.Name()
+			r.pConn = f.Name
 		case ts == "sync.Mutex":
-			r.connLock = f.Name()
-		case ts == "*sync.WaitGroup" || ts == "sync.WaitGroup" || holdsWaitGroup(f.Type()):
-			wgFields = append(wgFields, f.Name())
+			r.connLock = f.Name
+		case ts == "*sync.WaitGroup" || ts == "sync.WaitGroup" || holdsWaitGroup(f.Type):
+			wgFields = append(wgFields, f.Name)
 		}
-		switch t := f.Type().(type) {
+		switch t := f.Type.(type) {
 		case *types.Map:
-			r.conns = f.Name()
+			r.conns = f.Name
 		case *types.Chan:
 			if typeName(t.Elem()) == "udp.Conn" {
-				r.acceptCh = f.Name()
+				r.acceptCh = f.Name
 			} else {
-				structChans = append(structChans, f.Name())
+				structChans = append(structChans, f.Name)
 			}
 		}
 	}
